@@ -654,18 +654,21 @@ class Manager:
             event_handlers = self._cache[(event.name, channels)]
         except KeyError:
             h = (self.getHandlers(event, channel) for channel in channels)
-
-            event_handlers = sorted(
-                chain(*h),
-                key=attrgetter('priority'),
-                reverse=True,
-            )
+            found = list(chain(*h))
 
             if isinstance(event, generate_events):
                 from .helpers import FallBackGenerator
 
-                event_handlers.append(FallBackGenerator()._on_generate_events)
-            elif isinstance(event, exception) and len(event_handlers) == 0:
+                # (takes its place among the others by its priority)
+                found.append(FallBackGenerator()._on_generate_events)
+
+            event_handlers = sorted(
+                found,
+                key=attrgetter('priority'),
+                reverse=True,
+            )
+
+            if isinstance(event, exception) and len(event_handlers) == 0:
                 from .helpers import FallBackExceptionHandler
 
                 event_handlers.append(FallBackExceptionHandler()._on_exception)
